@@ -44,6 +44,10 @@ func projectEndState(r *Runner) map[string]any {
 			// middle of (re-)taking over its objects therefore keeps InTransition=True for good. Whether that was the case at
 			// the moment of archival is history, not desired state: not part of the end state compared here.
 			delete(conds, "InTransition")
+			// Succeeded records that the revision was seen Available (and not in transition) at least once before it was
+			// replaced: whether that happened depends on when the workload became ready relative to the disturbances (a
+			// third party deleting the workload right before the successor arrives) - history as well
+			delete(conds, "Succeeded")
 		}
 		p := map[string]any{"conds": conds, "deleting": kubesim.MetaString(o, "deletionTimestamp") != "", "finalizers": finalizers(o)}
 		switch k.Kind {
